@@ -44,6 +44,21 @@ def asRxn (v : Json) : Except String (Reaction String Rat) := do
   let k ← asRat (← field v "param")
   pure { reac := reac, prod := prod, inactReac := ir, inactProd := ip, param := k }
 
+/-- written terms of one side: array of `[coefficient, key]` (repetitions allowed) -/
+def asTerms (v : Json) : Except String (List (Nat × String)) := do
+  (← asArr v).mapM fun p =>
+    match p with
+    | .arr #[n, k] => do pure (← asNat n, ← asStr k)
+    | _ => .error "!bad-arg:terms"
+
+/-- a reaction given by its written terms (`reac`, `prod`, `inact_reac`, `inact_prod` as term lists) -/
+def asRxnTerms (v : Json) : Except String (Reaction String Rat) := do
+  pure (reactionOfTerms (← asTerms (← field v "reac")) (← asTerms (← field v "prod")) (← asTerms (← field v "inact_reac"))
+    (← asTerms (← field v "inact_prod")) (← asRat (← field v "param")))
+
+def showNatDict (d : List (String × Nat)) : String :=
+  (Json.arr (d.map fun kv => Json.arr #[Json.str kv.1, Json.num (kv.2 : Int)]).toArray).compress
+
 def getRxns (j : Json) (k : String) : Except String (List (Reaction String Rat)) := do
   (← getArr j k).mapM asRxn
 
